@@ -101,6 +101,24 @@ fn gen_cmd(rng: &mut Rng, m: &Model, cx: &Ctx, force: Option<u64>) -> Cmd {
             })
             .collect::<Vec<_>>())
     };
+    if let Some(code @ 108..=109) = force {
+        // two (or three) active plugins with the same name, then a well-formed plugin_cmd for that name: one reply
+        let name = if m.open { "FileTransfer" } else { *rng.pick(&["FileTransfer", "Rewrite"]) };
+        return match code {
+            108 => {
+                let one = |rng: &mut Rng| {
+                    if name == "Rewrite" {
+                        json!({"name":"Rewrite","rewrites":[]})
+                    } else {
+                        json!({"name":"FileTransfer","allowSave":rng.chance(1, 2),"keepFLDA":true})
+                    }
+                };
+                let plugins: Vec<serde_json::Value> = (0..2 + rng.usize_below(2)).map(|_| one(rng)).collect();
+                Cmd { text: format!("open {}", json!({"files":[cx.small], "plugins": plugins})), name: "open".into(), kind: "open-maybe", malformed: false }
+            }
+            _ => Cmd { text: format!("plugin_cmd {}", json!({"cmd":"save","name":*rng.pick(&["FileTransfer", "Rewrite"]),"params":{"saveAs":"/nonexistent/dir/x"},"cmdCtx":{"save":{"idx":0}}})), name: "plugin_cmd".into(), kind: "plugin_cmd", malformed: true },
+        };
+    }
     if let Some(code @ 105..=107) = force {
         return match code {
             105 => Cmd { text: "pause".into(), name: "pause".into(), kind: "pause-resume", malformed: false },
@@ -318,6 +336,14 @@ fn session(rng: &mut Rng, srv: &mut Server, cx: &Ctx, rep: &mut Report, history:
             script.push_back(if rng.chance(2, 3) { 101 + rng.below(4) } else { 10 + rng.below(8) });
         }
         rep.inc("sessions_with_queries_created_while_paused");
+    }
+    // 1/10: several active plugins with the same name and plugin commands for them
+    if script.is_empty() && rng.chance(1, 10) {
+        script.push_back(108);
+        for _ in 0..1 + rng.usize_below(3) {
+            script.push_back(if rng.chance(2, 3) { 109 } else { 18 });
+        }
+        rep.inc("sessions_with_same_named_plugins");
     }
     for _ in 0..n {
         let c = gen_cmd(rng, &m, cx, script.pop_front());
